@@ -46,7 +46,7 @@ def plan(tier, seed):
                 "cs": seed * 100 + i, "threaded": i % 3 == 2} for i in range(n)]
     # long-running consumers: the log keeps one entry per frame however many there are
     shards += [{"kind": "histories", "count": 2 if tier == "quick" else 12, "length": 700 if tier == "quick" else 3000,
-                "cs": seed * 100 + 50, "threaded": False}]
+                "cs": seed * 100 + 50, "threaded": False, "no_reset": True}]
     shards += [{"kind": "waits", "rounds": 6 if tier == "quick" else 40, "cs": seed}]
     return shards
 
@@ -125,7 +125,7 @@ def run_histories(ctx, desc):
         had_reset = False
         for step in range(desc["length"]):
             r = rng.random()
-            if r < 0.08:
+            if r < 0.08 and not desc.get("no_reset"):
                 ops.append(("consumer.reset",))
                 bus.quiesce()
                 node.emcy.reset()
